@@ -130,3 +130,88 @@ Example C10_lossy_nonvacuous :
   = ([[104]; [97; 124; 124; 45; 49; 50]; [98; COMMA; 99]]%N, None, true, true).
 Proof. vm_compute. reflexivity. Qed.
 Print Assumptions C10_lossy_nonvacuous.
+
+(* ------------------------------------------------------------------ the TABLE level (writer -> text -> reader) *)
+From RBQL Require Import Lines Reader Reader_Proofs TableLines_Proofs Table_Proofs.
+
+(* Every table the dialect can represent (table_ok: every record representable, first line not starting with what the reader
+   strips as a byte order mark), written by either port with any line separator (LF, CRLF, CR) and a delimiter without line
+   breaks, is read back by the reader specification - for ANY reader configuration of the same policy: encoding, header flag,
+   modifier, comment prefix no written record starts with - as the same table, CR / CRLF inside quoted_rfc fields normalised
+   to LF, with no BOM warning, no defective-line warning, no error; NL = number of physical lines, NR = number of records.
+     emit ls lines = every line followed by ls;   written fl pol dlm rows = map (join_line_fl fl pol dlm) rows;
+     ok_result c recs nl = ROk (records / header per the header flag) (no bom, no defective line, field-count info of the
+     record lengths) nl (length recs) *)
+Theorem C10_table_roundtrip : forall (fl : lang) (pol : policy) (dlm ls : str) (c : cfg) (rows : list (list str)),
+  c_rfc c = is_rfc pol -> line_sep ls ->
+  good_dlm pol dlm = true -> dlm_nl_free pol dlm = true ->
+  table_ok pol dlm (enc_code (c_enc c)) rows = true ->
+  no_comment_rows c (written fl pol dlm rows) = true ->
+  records_of_text (smart_split pol dlm false) c (emit ls (written fl pol dlm rows)) =
+  ok_result c (map (map nl_norm) rows) (physical_lines (written fl pol dlm rows)).
+Proof. exact table_roundtrip_any. Qed.
+Print Assumptions C10_table_roundtrip.
+
+(* identical table (no normalisation) when no field contains CR - in particular for every policy but quoted_rfc *)
+Theorem C10_table_exact : forall (fl : lang) (pol : policy) (dlm ls : str) (c : cfg) (rows : list (list str)),
+  c_rfc c = is_rfc pol -> line_sep ls -> good_dlm pol dlm = true -> dlm_nl_free pol dlm = true ->
+  table_representable pol dlm (enc_code (c_enc c)) rows = true ->
+  no_comment_rows c (written fl pol dlm rows) = true ->
+  records_of_text (smart_split pol dlm false) c (emit ls (written fl pol dlm rows)) =
+  ok_result c rows (physical_lines (written fl pol dlm rows)).
+Proof. exact table_representable_exact. Qed.
+Print Assumptions C10_table_exact.
+
+(* "with no warnings": the clean result carries no BOM and no defective-line warning, and the field-count warning is absent
+   exactly when all records have the same number of fields *)
+Theorem C10_clean_result_warnings : forall (c : cfg) (recs : list (list str)) (nl : nat),
+  exists rs h w nr, ok_result c recs nl = ROk rs h w nl nr /\ w_bom w = false /\ w_defective w = None /\
+    (w_fields w = None <-> same_length (map (@length str) recs) = true).
+Proof. exact ok_result_warnings. Qed.
+Print Assumptions C10_clean_result_warnings.
+
+(* from the writer model itself: set_header + write calls that raise no error emit exactly the lines of the normalised
+   rows, and the emitted text reads back as those rows *)
+Theorem C10_writer_reader_roundtrip : forall (fl : lang) (pol : policy) (dlm ls : str) (c : cfg)
+    (header : option (list cell)) (rows : list (list cell)) (lines : list str) (nf df : bool),
+  write_table fl pol dlm header rows = (lines, None, nf, df) ->
+  c_rfc c = is_rfc pol -> line_sep ls ->
+  good_dlm pol dlm = true -> dlm_nl_free pol dlm = true ->
+  table_ok pol dlm (enc_code (c_enc c)) (norm_rows dlm header rows) = true ->
+  no_comment_rows c lines = true ->
+  records_of_text (smart_split pol dlm false) c (emit ls lines) =
+  ok_result c (map (map nl_norm) (norm_rows dlm header rows)) (physical_lines lines).
+Proof. exact writer_reader_roundtrip. Qed.
+Print Assumptions C10_writer_reader_roundtrip.
+
+(* ... and through the Python STREAM reader, for every read size and every partition of the text into reads *)
+Theorem C10_table_roundtrip_stream : forall (fl : lang) (pol : policy) (dlm ls : str) (c : cfg) (rows : list (list str))
+    (cs : nat) (ps : list str),
+  (1 <= cs)%nat -> Forall nonempty ps -> concat ps = emit ls (written fl pol dlm rows) ->
+  c_rfc c = is_rfc pol -> line_sep ls ->
+  good_dlm pol dlm = true -> dlm_nl_free pol dlm = true ->
+  table_ok pol dlm (enc_code (c_enc c)) rows = true ->
+  no_comment_rows c (written fl pol dlm rows) = true ->
+  run_py (smart_split pol dlm false) c cs ps = ok_result c (map (map nl_norm) rows) (physical_lines (written fl pol dlm rows)).
+Proof. exact py_table_roundtrip. Qed.
+Print Assumptions C10_table_roundtrip_stream.
+
+(* the line-level conditions alone are NOT enough for tables: a delimiter that contains LF or CR passes good_dlm and
+   table_ok, yet the written line is cut by the readers' line splitter (the real ports behave the same; such a table is
+   not representable in the sense of the property: no reader that breaks lines at LF / CR can round-trip it) *)
+Theorem C10_newline_delimiter_refuted :
+  let a := 97%N in let b := 98%N in
+  let rows := [[[a]; [b]]] in
+  let w0 := {| w_bom := false; w_defective := None; w_fields := None |} in
+  (good_dlm Simple [LF] = true /\ table_ok Simple [LF] 0 rows = true /\
+   records_of_text (smart_split Simple [LF] false) (plain_cfg false false EncNone) (emit [LF] (written LPy Simple [LF] rows))
+   = ROk [[[a]]; [[b]]] None w0 2 2) /\
+  (good_dlm Quoted [CR] = true /\ table_ok Quoted [CR] 0 rows = true /\
+   records_of_text (smart_split Quoted [CR] false) (plain_cfg false false EncNone) (emit [LF] (written LJs Quoted [CR] rows))
+   = ROk [[[a]]; [[b]]] None w0 2 2) /\
+  (good_dlm QuotedRfc [a; LF; b] = true /\ table_ok QuotedRfc [a; LF; b] 0 rows = true /\
+   records_of_text (smart_split QuotedRfc [a; LF; b] false) (plain_cfg true false EncNone)
+                   (emit [CR; LF] (written LPy QuotedRfc [a; LF; b] rows))
+   = ROk [[[a; a]]; [[b; b]]] None w0 2 2).
+Proof. exact table_roundtrip_nl_dlm_refuted. Qed.
+Print Assumptions C10_newline_delimiter_refuted.
